@@ -511,6 +511,24 @@ def rule_attr_precision(ctx):
 # OPT: wire-neutral options never influence wire positions
 # ------------------------------------------------------------------------------------------------
 
+def _norm_id_fixed(ctx):
+    """is every fn named like a type-name normalizer the identity on the literal "ID"? (see NORM-ID)"""
+    from .facts import norm_path
+    fns = [f for f in ctx.crate('codegen').all_fns() if norm_path(f.path).endswith(('Normalization::field_type_impl', 'Normalization::field_type'))]
+    if not fns:
+        return False
+    okc = False
+    for f in fns:
+        x = ('argvar', 'x')
+        env = {}
+        ctx.pv.bind_params(f, f.params, [('param', f.key, 0, 'self'), x], env, 0)
+        t = ctx.pv.eval(f, f.body, env, 0)
+        for conds, leaf in P.leaves(t):
+            if leaf == x and any(c[0] == 'if' and c[2] and ('const', 'ID') in list(P.subterms(c[1])) for c in conds):
+                okc = True
+    return okc
+
+
 def rule_opt(ctx):
     dd = Dedup()
     checked = 0
@@ -518,9 +536,34 @@ def rule_opt(ctx):
     def neutral_in(origins):
         return sorted(o[1] for o in origins if o[0] == 'field' and o[1] in NEUTRAL_OPTIONS)
 
+    norm_id_ok = _norm_id_fixed(ctx)
+
+    def neutralise_id_tests(conds):
+        """`<type name> == "ID"` does not depend on normalization when the normalizer is the identity on "ID"
+        (NORM-ID): a user type that normalizes to `ID` collides with the built-in alias and cannot compile."""
+        if not norm_id_ok:
+            return conds
+
+        def rw(t):
+            if not isinstance(t, tuple) or not t:
+                return t
+            if t[0] == 'op' and t[1] in ('==', '!=') and len(t[2]) == 2 and ('const', 'ID') in t[2]:
+                return ('op', t[1], (('const', '<schema type name>'), ('const', 'ID')))
+            if t[0] == 'join':
+                return P.join([rw(x) for x in t[1]])
+            return tuple(rw(x) if isinstance(x, tuple) else x for x in t)
+        out = []
+        for c in conds:
+            if c[0] in ('if', 'match') and c[1] is not None:
+                out.append((c[0], rw(c[1])) + tuple(c[2:]))
+            else:
+                out.append(c)
+        return tuple(out)
+
     def check_conds(conds, what, site, allow_extern=False):
         nonlocal checked
         checked += 1
+        conds = neutralise_id_tests(conds)
         os_ = TM.cond_origins(conds)
         hit = neutral_in(os_)
         if allow_extern:
@@ -810,7 +853,13 @@ def rule_other_guard(ctx):
                 os_ = TM.cond_origins(v.conds) | TM.cond_origins(a.rconds)
                 if ('field', OPT + 'fragments_other_variant') in os_:
                     # polarity: must be the `true` side
-                    pol = [c for c in (v.conds + a.rconds) if c[0] == 'if' and OPT + 'fragments_other_variant' in TM.fields_in(c[1])]
+                    def direct(t):
+                        while t[0] == 'op' and t[1] == '!' :
+                            t = t[2][0]
+                        while t[0] == 'join' and len({TM.strip_bases(x) for x in t[1]}) == 1:
+                            t = next(iter(t[1]))
+                        return t[0] == 'field' and t[3] == 'fragments_other_variant'
+                    pol = [c for c in (v.conds + a.rconds) if c[0] == 'if' and direct(c[1])]
                     if all(c[2] for c in pol):
                         dd.add(ok('OTHER-GUARD', inst, 'serde(other) variant only under options.fragments_other_variant', loc))
                     else:
